@@ -119,6 +119,76 @@ def dh_writers(ctx, rule):
     ctx.floor('%s INVALID_KE retries in process_create_child_sa_response' % rule, n, 2, rule=rule)
 
 
+def derivation_sites(ctx, rule):
+    """what each of the two negotiation functions feeds into the IKE key derivation: Ni / Nr, SPIi / SPIr (the responder's SPI from the
+    header of the response, from the SA payload on a rekey), g^ir from the DH object of the exchange, the old SK_d, the chosen
+    proposal - and that the derived keyring is kept (shared: C01 O3, C04 K3)"""
+    prog = ctx.prog
+    gk = ctx.func(IKESA + '.generate_ike_sa_key_material')
+    sites = {}
+    for fi in prog.cls(IKESA).methods.values():
+        if not isinstance(fi.node, ast.FunctionDef):
+            continue
+        for c in ctx.sval(fi).calls_to(qual=gk.qual):
+            sites.setdefault(fi.qual, []).append((fi, c))
+    ctx.check(set(sites) == {IKESA + '._process_ike_sa_negotiation_request', IKESA + '.process_ike_sa_negotiation_response'}
+              and all(len(v) == 1 for v in sites.values()), rule,
+              'IKE keys are derived once in the responder and once in the initiator negotiation function', key=(rule, 'sites'),
+              detail={'found': sorted(sites)})
+    for q, lst in sites.items():
+        fi, c = lst[0]
+        S = ctx.sval(fi)
+        b = c.args
+        msg = fi.call_params()[0]
+        responder = q.endswith('_process_ike_sa_negotiation_request')
+
+        def m(pattern, t):
+            return t is not None and tq.match(S.expr(pattern), t) is not None
+        peer_nonce = '%s.get_payload(Payload.Type.NONCE, _).nonce' % msg
+        peer_ke = '%s.get_payload(Payload.Type.KE, _)' % msg
+        cs = [x for x in S.calls if x.name == 'compute_secret']
+        if responder:
+            exp = [('nonce_i', m(peer_nonce, b.get('nonce_i')), 'Ni is the nonce of the received request'),
+                   ('spi_i', b.get('spi_i') == attr(P('self'), 'peer_spi'), 'SPIi is the peer\'s SPI'),
+                   ('spi_r', b.get('spi_r') == attr(P('self'), 'my_spi'), 'SPIr is our SPI')]
+            nr = b.get('nonce_r')
+            fresh = nr is not None and nr[0] == 'attr' and nr[2] == 'nonce' and tq.is_call(nr[1], 'new message.PayloadNONCE') \
+                and not tq.args(nr[1])
+            exp.append(('nonce_r', fresh, 'Nr is the freshly drawn nonce put into the response'))
+            rets = [t for _, t, _ in S.returns]
+            sent = fresh and bool(rets) and all(t[0] == 'list' and nr[1] in t[1] for t in rets)
+            exp.append(('nonce_r-sent', sent, 'the nonce used as Nr is the one returned in the response payloads'))
+            ss = b.get('shared_secret')
+            dh = ss[1] if ss is not None and ss[0] == 'attr' and ss[2] == 'shared_secret' else None
+            ok = dh is not None and m('DiffieHellman.from_group(%s.dh_group)' % peer_ke, dh) and len(cs) == 1 and cs[0].recv == dh \
+                and m(peer_ke + '.ke_data', list(cs[0].args.values())[0] if cs[0].args else None) and cs[0].seq < c.seq
+            ke = S.calls_to(callee='new message.PayloadKE')
+            ok = ok and len(ke) == 1 and ke[0].args.get('dh_group') == attr(dh, 'group') and ke[0].args.get('ke_data') == attr(dh, 'public_key') \
+                and all(t[0] == 'list' and ke[0].term in t[1] for t in rets)
+            exp.append(('shared_secret', ok, 'g^ir comes from a fresh DH object fed with the peer\'s KE data, whose public value is returned'))
+        else:
+            exp = [('nonce_i', b.get('nonce_i') == P(fi.call_params()[1]), 'Ni is the nonce handed in by the caller'),
+                   ('nonce_r', m(peer_nonce, b.get('nonce_r')), 'Nr is the nonce of the received response'),
+                   ('spi_i', b.get('spi_i') == attr(P('self'), 'my_spi'), 'SPIi is our SPI')]
+            dh = attr(P('self'), 'dh')
+            ok = b.get('shared_secret') == attr(dh, 'shared_secret') and len(cs) == 1 and cs[0].recv == dh \
+                and m(peer_ke + '.ke_data', list(cs[0].args.values())[0] if cs[0].args else None) and cs[0].seq < c.seq
+            exp.append(('shared_secret', ok, 'g^ir comes from the DH object of our request fed with the peer\'s KE data'))
+            # the peer SPI is learnt before the keys are derived: the SPIr operand is the value just stored in self.peer_spi
+            want = S.expr('%s.spi_r if old_sk_d is None else %s.get_payload(Payload.Type.SA, _).proposals[0].spi' % (msg, msg))
+            ok = b.get('spi_r') is not None and tq.match(want, b['spi_r']) is not None and S.final('self.peer_spi') == b['spi_r']
+            exp.append(('peer_spi', ok, 'the peer SPI is taken from the response header (from the SA payload on a rekey) before deriving'))
+        exp.append(('old_sk_d', b.get('old_sk_d') == P('old_sk_d') and 'old_sk_d' in fi.call_params(), 'the old SK_d is passed through'))
+        chosen = [(v, s) for t, v, _, _, s in S.stores if t == attr(P('self'), 'chosen_proposal') and s < c.seq]
+        exp.append(('ike_proposal', bool(chosen) and b.get('ike_proposal') == chosen[-1][0], 'keys are derived for the chosen proposal'))
+        for k, ok, what in exp:
+            ctx.check(ok, rule, '%s: %s' % (fi.name, what), key=(rule, q, k), site=ctx.site(fi, c.node),
+                      detail={'found': tq.text(b[k], 300) if k in b else None})
+        kept = [v for t, v, _, _, _ in S.stores if t == attr(P('self'), 'ike_sa_keyring')]
+        ctx.check(len(kept) == 1 and kept[0] == c.term, rule, '%s keeps the derived keyring' % fi.name,
+                  key=(rule, q, 'keyring'), site=ctx.site(fi, c.node))
+
+
 def run(ctx):
     prog = ctx.prog
 
@@ -170,68 +240,7 @@ def run(ctx):
         ctx.check(not others, 'O2', 'my_crypto / peer_crypto are assigned nowhere else', key=('O2', 'other-writers', ','.join(others)))
 
     # ---------------------------------------------------------------- O3
-    sites = {}
-    for fi in prog.cls(IKESA).methods.values():
-        if not isinstance(fi.node, ast.FunctionDef):
-            continue
-        for c in ctx.sval(fi).calls_to(qual=gk.qual):
-            sites.setdefault(fi.qual, []).append((fi, c))
-    ctx.check(set(sites) == {IKESA + '._process_ike_sa_negotiation_request', IKESA + '.process_ike_sa_negotiation_response'}
-              and all(len(v) == 1 for v in sites.values()), 'O3',
-              'IKE keys are derived once in the responder and once in the initiator negotiation function', key=('O3', 'sites'),
-              detail={'found': sorted(sites)})
-    for q, lst in sites.items():
-        fi, c = lst[0]
-        S = ctx.sval(fi)
-        b = c.args
-        msg = fi.call_params()[0]
-        responder = q.endswith('_process_ike_sa_negotiation_request')
-
-        def m(pattern, t):
-            return t is not None and tq.match(S.expr(pattern), t) is not None
-        peer_nonce = '%s.get_payload(Payload.Type.NONCE, _).nonce' % msg
-        peer_ke = '%s.get_payload(Payload.Type.KE, _)' % msg
-        cs = [x for x in S.calls if x.name == 'compute_secret']
-        if responder:
-            exp = [('nonce_i', m(peer_nonce, b.get('nonce_i')), 'Ni is the nonce of the received request'),
-                   ('spi_i', b.get('spi_i') == attr(P('self'), 'peer_spi'), 'SPIi is the peer\'s SPI'),
-                   ('spi_r', b.get('spi_r') == attr(P('self'), 'my_spi'), 'SPIr is our SPI')]
-            nr = b.get('nonce_r')
-            fresh = nr is not None and nr[0] == 'attr' and nr[2] == 'nonce' and tq.is_call(nr[1], 'new message.PayloadNONCE') \
-                and not tq.args(nr[1])
-            exp.append(('nonce_r', fresh, 'Nr is the freshly drawn nonce put into the response'))
-            rets = [t for _, t, _ in S.returns]
-            sent = fresh and bool(rets) and all(t[0] == 'list' and nr[1] in t[1] for t in rets)
-            exp.append(('nonce_r-sent', sent, 'the nonce used as Nr is the one returned in the response payloads'))
-            ss = b.get('shared_secret')
-            dh = ss[1] if ss is not None and ss[0] == 'attr' and ss[2] == 'shared_secret' else None
-            ok = dh is not None and m('DiffieHellman.from_group(%s.dh_group)' % peer_ke, dh) and len(cs) == 1 and cs[0].recv == dh \
-                and m(peer_ke + '.ke_data', list(cs[0].args.values())[0] if cs[0].args else None) and cs[0].seq < c.seq
-            ke = S.calls_to(callee='new message.PayloadKE')
-            ok = ok and len(ke) == 1 and ke[0].args.get('dh_group') == attr(dh, 'group') and ke[0].args.get('ke_data') == attr(dh, 'public_key') \
-                and all(t[0] == 'list' and ke[0].term in t[1] for t in rets)
-            exp.append(('shared_secret', ok, 'g^ir comes from a fresh DH object fed with the peer\'s KE data, whose public value is returned'))
-        else:
-            exp = [('nonce_i', b.get('nonce_i') == P(fi.call_params()[1]), 'Ni is the nonce handed in by the caller'),
-                   ('nonce_r', m(peer_nonce, b.get('nonce_r')), 'Nr is the nonce of the received response'),
-                   ('spi_i', b.get('spi_i') == attr(P('self'), 'my_spi'), 'SPIi is our SPI')]
-            dh = attr(P('self'), 'dh')
-            ok = b.get('shared_secret') == attr(dh, 'shared_secret') and len(cs) == 1 and cs[0].recv == dh \
-                and m(peer_ke + '.ke_data', list(cs[0].args.values())[0] if cs[0].args else None) and cs[0].seq < c.seq
-            exp.append(('shared_secret', ok, 'g^ir comes from the DH object of our request fed with the peer\'s KE data'))
-            # the peer SPI is learnt before the keys are derived: the SPIr operand is the value just stored in self.peer_spi
-            want = S.expr('%s.spi_r if old_sk_d is None else %s.get_payload(Payload.Type.SA, _).proposals[0].spi' % (msg, msg))
-            ok = b.get('spi_r') is not None and tq.match(want, b['spi_r']) is not None and S.final('self.peer_spi') == b['spi_r']
-            exp.append(('peer_spi', ok, 'the peer SPI is taken from the response header (from the SA payload on a rekey) before deriving'))
-        exp.append(('old_sk_d', b.get('old_sk_d') == P('old_sk_d') and 'old_sk_d' in fi.call_params(), 'the old SK_d is passed through'))
-        chosen = [(v, s) for t, v, _, _, s in S.stores if t == attr(P('self'), 'chosen_proposal') and s < c.seq]
-        exp.append(('ike_proposal', bool(chosen) and b.get('ike_proposal') == chosen[-1][0], 'keys are derived for the chosen proposal'))
-        for k, ok, what in exp:
-            ctx.check(ok, 'O3', '%s: %s' % (fi.name, what), key=('O3', q, k), site=ctx.site(fi, c.node),
-                      detail={'found': tq.text(b[k], 300) if k in b else None})
-        kept = [v for t, v, _, _, _ in S.stores if t == attr(P('self'), 'ike_sa_keyring')]
-        ctx.check(len(kept) == 1 and kept[0] == c.term, 'O3', '%s keeps the derived keyring' % fi.name,
-                  key=('O3', q, 'keyring'), site=ctx.site(fi, c.node))
+    derivation_sites(ctx, 'O3')
     dh_writers(ctx, 'O3')
     # callers: old SK_d and Ni
     callers = [
